@@ -214,6 +214,10 @@ def jobs(tier, seed):
     for t in TYPES:
         J.append(('int', t))
         J.append(('unary', t))
+    # the same (value, value) pairs through every type pair within ONE process, widths ascending / descending / interleaved:
+    # a result must not depend on which width computed the same numbers before (memo keyed without the width)
+    for order in ('ascending', 'descending', 'interleaved'):
+        J.append(('order', order))
     if tier == 'thorough':
         # all 8-bit values against every other type's boundary set, both orders
         for t8 in eight + ['uint1']:
@@ -267,6 +271,21 @@ def shard(s, ns, tier, seed):
                             check_binary(part, m, op, 'int', vb, t, va, 'reflected')
             for v in iv + [(1 << (2 * n)) - 1, -(1 << n) - 1]:
                 ctor_check(part, m, t, v)
+        elif j[0] == 'order':
+            byw = sorted(TYPES, key=lambda t: (tinfo(t)[0], t))
+            seq = {'ascending': byw, 'descending': byw[::-1], 'interleaved': byw[::2] + byw[1::2][::-1]}[j[1]]
+            shared_l = [3, 5, 7, 2, 0x55, 0x7f, 1]
+            shared_r = [64, 65, 100, 127, 3, 7, 1, 8, 9, 16, 31, 33]
+            for op in BINOPS:
+                for va in shared_l:
+                    for vb in shared_r:
+                        for lt in seq:
+                            if not in_range(va, *tinfo(lt)):
+                                continue
+                            for rt in seq + ['int']:
+                                if rt != 'int' and not in_range(vb, *tinfo(rt)):
+                                    continue
+                                check_binary(part, m, op, lt, va, rt, vb, 'direct')
         elif j[0] == 'unary':
             t = j[1]
             for op in UNOPS:
@@ -282,7 +301,7 @@ def run(tier, seed):
     part.samples = part.samples[:3] + [{'work_items': [list(j) for j in J[:3]]}]
     rule = ('case = (operator, left type, left value, right type, right value, direct|reflected); '
             'space = 16 binary operators x {all 2^16 pairs for the 4 8-bit type pairs; full product of boundary sets '
-            '{0,1,2,2^(n-1)-1,2^(n-1),2^n-2,2^n-1,+2 seed constants} for all 121 ordered type pairs; each type x plain ints} '
+            '{0,1,2,2^(n-1)-1,2^(n-1),2^n-2,2^n-1,+6 fixed constants} for all 121 ordered type pairs; each type x plain ints; 7 x 12 shared small value pairs through every type pair in one process in three width orders} '
             '+ 5 unary operators + constructors; non-trivial = the operation is defined in Python (no negative/huge shift '
             'count, no modulo zero, exponent in 0..%d) and reached the comparison; distinct = distinct case tuples' % MAXEXP)
     return core.finish('C14', tier, seed, t0, part, rule, exhaustive=True, space={'work_items': len(J)},
